@@ -100,6 +100,26 @@ def pdivexact(p, q, limit=200000):
             else: rem[mm] = v
     return r
 
+def psqrt(p):
+    """polynomial q with q*q == p, or None"""
+    if not p: return {}
+    lt = _lead(p); c = p[lt]
+    rc = _rat_sqrt(c)
+    if rc is None or any(e % 2 for _, e in lt): return None
+    t0m = tuple((k, e // 2) for k, e in lt)
+    q = {t0m: rc}
+    rem = psub(p, pmul(q, q))
+    steps = 0
+    while rem:
+        steps += 1
+        if steps > len(p) + 8: return None
+        lr = _lead(rem)
+        m = _mdiv(lr, t0m)
+        if m is None: return None
+        q = padd(q, {m: rem[lr] / (2 * rc)})
+        rem = psub(p, pmul(q, q))
+    return q
+
 def pscale(a, c):
     if c == 0: return {}
     return {m: v * c for m, v in a.items()}
@@ -129,6 +149,7 @@ class Ctx:
         self.polyatoms = {}
         self.cancel = False
         self.factors = []
+        self.positive = set()     # atom keys known to be positive (premises): |a| = a
         self.poly_names = {}
 
     def key(self, node):
@@ -286,6 +307,13 @@ class Ctx:
                 for kk, e in m:
                     out = pmul(out, ppow(self.abs_of_atom(kk), e // 2))
                 return (self.reduce(out), one)
+        if len(p) > 1:
+            q = psqrt(p)
+            if q is not None:
+                # sqrt(q^2) = |q| ; = q when q is visibly positive (positive coefficients over positive atoms)
+                if all(c > 0 for c in q.values()) and all(k in self.positive or e % 2 == 0 for m in q for k, e in m):
+                    return (q, one)
+                return self.abs_poly(q)
         key = tuple(sorted(p.items()))
         k = self.polyatoms.get(key)
         if k is None and len(p) > 1:
@@ -308,6 +336,8 @@ class Ctx:
 
     def abs_of_atom(self, kk):
         """|x| for an atom x, with |x|^2 -> x^2"""
+        if kk in self.positive:
+            return patom(kk)
         key = ('abs', kk)
         k = self.polyatoms.get(key)
         if k is None:
